@@ -335,3 +335,119 @@ Proof.
   - vm_compute. reflexivity.
   - intros (e & [<-|[<-|[]]] & T & C); cbn in T; try discriminate. unfold containsZ in C. cbn in C. lia.
 Qed.
+
+(** * 2. TXT memory *)
+
+Definition u32 (z : Z) : Prop := 0 <= z < W32.
+
+(** what TXTHeapSpaceValid is meant to decide (its own error texts), on unbounded integers *)
+Definition heap_spec (hb hs sb ss : Z) : Prop :=
+  hb + hs < W32 /\ LEGACY_MIN_HEAP <= hs /\ sb mod 4096 = 0 /\ sb + ss < W32 /\ MIN_SINIT <= ss /\
+  sb < hb /\ (0 < sb -> sb + ss = hb).
+
+Lemma land_4095 z : 0 <= z -> Z.land z 4095 = z mod 4096.
+Proof. intros. change 4095 with (Z.ones 12). rewrite Z.land_ones by lia. reflexivity. Qed.
+
+Ltac brk :=
+  repeat match goal with
+         | |- context [if ?c then _ else _] => destruct c eqn:?
+         | H : context [if ?c then _ else _] |- _ => destruct c eqn:?
+         end.
+
+Theorem HeapValid_partial : forall hb hs sb ss mj,
+  u32 hb -> u32 hs -> u32 sb -> u32 ss -> u32 mj ->
+  hb + hs < W32 ->                                   (* no 32-bit wrap of the heap end *)
+  (heap_valid hb hs sb ss mj = pass <-> heap_spec hb hs sb ss).
+Proof.
+  unfold u32, heap_spec, heap_valid, W32, FOUR_GIB, LEGACY_MIN_HEAP, MIN_SINIT.
+  intros hb hs sb ss mj Hhb Hhs Hsb Hss Hmj Hnw.
+  rewrite land_4095 by lia.
+  rewrite (wrap32_small (hb + hs)) by (unfold W32; lia).
+  pose proof (Z.mod_pos_bound sb 4096 ltac:(lia)) as Hm.
+  assert (Hw : sb + ss < 4294967296 -> wrap32 (sb + ss) = sb + ss) by (intros; apply wrap32_small; unfold W32; lia).
+  assert (Hv : 4294967296 <= sb + ss -> wrap32 (sb + ss) = sb + ss - 4294967296) by (intros; rewrite wrap32_over; unfold W32; lia).
+  pose proof (wrap32_range (sb + ss)) as Hr. unfold W32 in Hr.
+  unfold pass, fail.
+  destruct (Z_lt_le_dec (sb + ss) 4294967296) as [L|L]; [rewrite (Hw L) in *|rewrite (Hv L) in *];
+    brk; split; intros; try discriminate; try reflexivity; try lia.
+Qed.
+
+Theorem HeapValid_wrap32_refuted :
+  exists hb hs sb ss mj, u32 hb /\ u32 hs /\ u32 sb /\ u32 ss /\ u32 mj /\
+    heap_valid hb hs sb ss mj = pass /\ ~ heap_spec hb hs sb ss.
+Proof.
+  exists 4293918720, 2097152, 0, 65536, 0. unfold u32, W32.
+  repeat split; try lia; try (vm_compute; congruence).
+  unfold heap_spec, W32. lia.
+Qed.
+
+(** the vacuous guards: uint64(a+b) >= 4 GiB never fires *)
+Theorem HeapValid_guards_vacuous : forall a b, (wrap32 (a + b) >=? FOUR_GIB) = false.
+Proof. intros. pose proof (wrap32_range (a + b)). unfold W32, FOUR_GIB in *. lia. Qed.
+
+(** TXTMemoryIsDPR *)
+Definition dpr_spec (S L hb hs sb ss : Z) : Prop :=
+  3 * MiB <= S /\ L - S <= hb /\ (0 < sb -> L - S <= sb) /\ hb + hs = L /\
+  (0 < sb -> sb + ss <= L) /\ 2 * MiB + hs + ss <= S.
+
+Theorem DPR_partial : forall dpr hb hs sb ss,
+  u32 hb -> u32 hs -> u32 sb -> u32 ss ->
+  let S := bits dpr 4 255 * MiB in
+  let L := (bits dpr 20 4095 + 1) * MiB in
+  bits dpr 20 4095 < 4095 ->          (* DPR top below 4 GiB: (top+1)<<20 fits in uint32 *)
+  S <= L ->                           (* base does not underflow *)
+  hb + hs < W32 -> sb + ss < W32 ->   (* no 32-bit wrap of the region ends *)
+  2 * MiB + hs + ss <= L ->           (* limit - 2 MiB - heap - sinit does not underflow *)
+  (memory_is_dpr dpr hb hs sb ss = pass <-> dpr_spec S L hb hs sb ss).
+Proof.
+  intros dpr hb hs sb ss Hhb Hhs Hsb Hss S L Htop HSL Hh Hs Hm.
+  pose proof (bits_ones_range dpr 4 8 ltac:(lia)) as R1. change (Z.ones 8) with 255 in R1.
+  pose proof (bits_ones_range dpr 20 12 ltac:(lia)) as R2. change (Z.ones 12) with 4095 in R2.
+  unfold memory_is_dpr, dpr_base, dpr_limit, dpr_size, dpr_spec. fold S.
+  unfold u32, W32, MiB in *.
+  rewrite (wrap16_small (bits dpr 20 4095 + 1)) by (unfold W16; lia).
+  change ((bits dpr 20 4095 + 1) * 1048576) with L. unfold MiB in S, L.
+  rewrite (wrap32_small S) by (unfold W32; subst S; lia).
+  rewrite (wrap32_small L) by (unfold W32; subst L; lia).
+  rewrite (wrap32_small (L - S)) by (unfold W32; subst S L; lia).
+  rewrite (wrap32_small (hb + hs)) by (unfold W32; lia).
+  rewrite (wrap32_small (sb + ss)) by (unfold W32; lia).
+  assert (HL : L < 4294967296) by (subst L; lia).
+  rewrite (wrap32_small (L - 2 * 1048576)) by (unfold W32; lia).
+  rewrite (wrap32_small (L - 2 * 1048576 - hs)) by (unfold W32; lia).
+  rewrite (wrap32_small (L - 2 * 1048576 - hs - ss)) by (unfold W32; lia).
+  unfold pass, fail. brk; split; intros; try discriminate; try reflexivity; try lia.
+Qed.
+
+Theorem DPR_underflow_refuted :
+  exists dpr hb hs sb ss, u32 hb /\ u32 hs /\ u32 sb /\ u32 ss /\
+    memory_is_dpr dpr hb hs sb ss = pass /\
+    ~ dpr_spec (bits dpr 4 255 * MiB) ((bits dpr 20 4095 + 1) * MiB) hb hs sb ss.
+Proof.
+  exists 2146435121, 2144337920, 3145728, 0, 4026531840. unfold u32, W32.
+  repeat split; try lia; try (vm_compute; congruence).
+  intros (_ & _ & _ & _ & _ & H). vm_compute in H. apply H. reflexivity.
+Qed.
+
+(** ValidSMRR: what a pass guarantees (read off the register values) *)
+Theorem ValidSMRR_failclosed : forall pbm pmm tb tl,
+  valid_smrr pbm pmm tb tl = pass ->
+  let pb := bits pbm 12 1048575 in
+  let pm := bits pmm 12 1048575 in
+  pm <> 0 /\ pb <> 0 /\ tb <> 0 /\ tb <> U32MAX /\ tl <> 0 /\ tl <> U32MAX /\
+  tb = wrap32 (pb * 4096) /\
+  Z.land tb (U32MAX - wrap32 (pm * 4096)) = 0 /\
+  Z.land tl (U32MAX - wrap32 (pm * 4096)) = 0 /\
+  Z.land (wrap32 (tl - 1)) (wrap32 (pm * 4096)) = wrap32 (pb * 4096).
+Proof.
+  intros pbm pmm tb tl H. cbv zeta. unfold valid_smrr, pass, fail in H.
+  brk; try discriminate. repeat split; lia.
+Qed.
+
+(** on every non-Broadwell-DE host bridge the library hands back limit 0:
+    no SMRR/TSEG configuration is accepted there *)
+Theorem ValidSMRR_sandy_never_passes : forall pbm pmm tb raw,
+  valid_smrr pbm pmm tb (tseg_limit false raw) <> pass.
+Proof.
+  intros. unfold tseg_limit, valid_smrr, pass, fail. brk; try discriminate. lia.
+Qed.
